@@ -195,9 +195,40 @@ def run(v):
     if p.returncode != 0:
         raise ToolError("replay names failed: " + p.stderr[-1000:])
     rows = vlib.read_ndjson(res)
-    for i, r in enumerate(rows[:-1]):
-        v.violation("real mangling differs from Names.tla for %r: %s" % (r["identifier"], r["why"][:250]), r, "names_%03d.json" % i)
     names_cases = vlib.read_ndjson(vec)
+    # A difference from the automata of Names.tla breaks the property only if a result is not a legal Rust identifier, or if two
+    # identifiers come out equal that the specification keeps apart (a new collision); otherwise the specification is out of date
+    # about the spelling, which the property does not fix: reported as a note, not as a violation.
+    diff = rows[:-1]
+    legal = lambda o: isinstance(o, str) and re.fullmatch(r"(r#)?[A-Za-z_][A-Za-z0-9_]*", o) is not None and o not in ("_", "Self", "r#self", "r#Self", "r#super", "r#crate") \
+        and (o.startswith("r#") or o not in KEYWORDS)
+    real_of = {r["identifier"]: r["real"] for r in diff if r.get("real")}
+    breaking = []
+    for r in diff:
+        if not r.get("real") or not all(legal(r["real"][k]) for k in ("genField", "genVariant", "typeName", "const")):
+            breaking.append((r, "a result is not a legal Rust identifier (or the function panicked)"))
+    for kind in ("genField", "genVariant", "typeName"):
+        groups = {}
+        for c in names_cases:
+            s = ident(c["s"])
+            out_real = real_of[s][kind] if s in real_of else ident(c[kind])
+            groups.setdefault(out_real, []).append((s, ident(c[kind])))
+        for out_real, members in groups.items():
+            if len({p for _, p in members}) > 1 and any(s in real_of for s, _ in members):
+                r = next(x for x in diff if x["identifier"] in {s for s, _ in members})
+                breaking.append((r, "%s maps %s to the same name %r, Names.tla keeps them apart" % (kind, sorted(s for s, _ in members)[:6], out_real)))
+    seen = set()
+    for i, (r, what) in enumerate(breaking):
+        if (r["identifier"], what) in seen:
+            continue
+        seen.add((r["identifier"], what))
+        if len(seen) <= 30:
+            v.violation("real mangling differs from Names.tla for %r and breaks the property: %s; %s" % (r["identifier"], what, r["why"][:200]), r, "names_%03d.json" % i)
+    if diff and not breaking:
+        log("NOTE property=C09 the real mangling differs from Names.tla on %d identifiers; every result is a legal Rust identifier and no two identifiers "
+            "are mapped together that the specification keeps apart: the property holds, the specification's spelling is out of date (%s)"
+            % (len(diff), diff[0]["why"][:160]))
+        v.cov["names_spelling_drift"] = len(diff)
     v.cov["traces_validated_against_impl"] += rows[-1]["cases"]
     v.cov["evaluations"] += rows[-1]["cases"]
     # ---- R(ii): rustc decides ----
